@@ -407,6 +407,38 @@ func (f *flight) applyNeutral(e *env) bool {
 				st.extra = sim.Pick(t, []string{`foo="bar"`, `realm="x"`, `v=1`})
 				kind = "xm_extra_param"
 			case 5:
+				if t.Bool() {
+					// a further X-Matrix header naming another key ID O has
+					// published, with a signature that does not verify (the
+					// genuine one's bytes): the genuine header still stands
+					// or falls by its own key
+					other := ""
+					for _, id := range e.okeys {
+						used := false
+						for _, p := range ps {
+							if p.key == id {
+								used = true
+							}
+						}
+						if !used {
+							other = id
+						}
+					}
+					if other != "" {
+						x := ps[0]
+						x.key = other
+						h := f.hdr[idx[0]]
+						h.val = x.render(defaultStyle())
+						at := idx[len(idx)-1] + 1
+						if t.Bool() {
+							at = idx[0]
+						}
+						f.insertHdr(at, h)
+						f.xmTouched = true
+						f.add(mark{class: neutral, kind: "xm_extra_header_for_another_key_id"})
+						return true
+					}
+				}
 				// the same credentials twice
 				f.insertHdr(idx[len(idx)-1]+1, f.hdr[idx[0]])
 				f.xmTouched = true
